@@ -8,8 +8,13 @@ small description:
     formula = None | (const, [(coef, dep, via, pt), ...])   via: s = population(dep, p)
                                                                   m = group.sum(group.members(dep, p))
                                                                   p = person.<group of dep>(dep, p)
+                                                                  mr<role> = group.sum(group.members(dep, p), role=ROLE)
+                                                                  nb<role> = group.nb_persons(role=ROLE)
+                                                                  hr<g>_<role> = person.has_role(ROLE of group g)
+    every group entity has the roles r0 (sub-roles r0s0, r0s1), r1, r2 (max 1); <role> is the set of flattened
+    roles satisfying it: 0_1 (r0) | 0 (r0s0) | 1 (r0s1) | 2 (r1) | 3 (r2)
                                                              pt:  s = the requested period, l = period.last_month
-    spec    = (persons, [(entity, count, members_entity_id), ...], mem)    mem: None | [priority variables]
+    spec    = (persons, [(entity, count, members_entity_id, roles | None), ...], mem)    mem: None | [priority variables]
 
 The text forms are those of lean/OFCore/OFCore/Drv/Heap.lean.  Values are float variables holding
 small integers, so every float32 operation of the engine is exact.
@@ -22,6 +27,9 @@ import shutil
 from fractions import Fraction
 
 UNITS = ("month", "year", "eternity", "day", "week", "weekday")
+STD_ROLES = ((0, 1), (0,), (1,), (2,), (3,))
+ROLE_DESCRIPTIONS = [{"key": "r0", "plural": "r0s", "subroles": ["r0s0", "r0s1"]}, {"key": "r1", "plural": "r1s"},
+                     {"key": "r2", "plural": "r2s", "max": 1}]
 
 
 class Malformed(Exception):
@@ -65,12 +73,31 @@ def parse_period(s):
     return (parts[0], tuple(_int(x) for x in d), _int(parts[2]))
 
 
+def parse_role(s):
+    r = tuple(_nat(x) for x in s.split("_"))
+    if r not in STD_ROLES:
+        raise Malformed(s)
+    return r
+
+
+def parse_via(v):
+    """-> "s" | "m" | "p" | ("mr", role) | ("nb", role) | ("hr", g, role)"""
+    if v in ("s", "m", "p"):
+        return v
+    if v.startswith("mr") or v.startswith("nb"):
+        return (v[:2], parse_role(v[2:]))
+    if v.startswith("hr"):
+        g, _, r = v[2:].partition("_")
+        return ("hr", _nat(g), parse_role(r))
+    raise Malformed(v)
+
+
 def parse_term(s):
     c, _, rest = s.partition("*")
     f = rest.split(".")
-    if "*" not in s or len(f) != 3 or f[1] not in "smp" or f[2] not in "sl" or len(f[1]) != 1 or len(f[2]) != 1:
+    if "*" not in s or len(f) != 3 or f[2] not in ("s", "l"):
         raise Malformed(s)
-    return (_int(c), _nat(f[0]), f[1], f[2])
+    return (_int(c), _nat(f[0]), parse_via(f[1]), f[2])
 
 
 def parse_sys(s):
@@ -95,9 +122,10 @@ def parse_spec(s):
     groups = []
     for g in _split(f[1], ","):
         gf = g.split(":")
-        if len(gf) != 3:
+        if len(gf) != 4:
             raise Malformed(g)
-        groups.append((_nat(gf[0]), _nat(gf[1]), [_nat(x) for x in _split(gf[2], ".")]))
+        groups.append((_nat(gf[0]), _nat(gf[1]), [_nat(x) for x in _split(gf[2], ".")],
+                       None if gf[3] == "-" else [_nat(x) for x in _split(gf[3], ".")]))
     if f[2] == "-":
         mem = None
     elif f[2].startswith("d"):
@@ -144,7 +172,14 @@ def entity_key(k):
     return "person" if k == 0 else f"g{k}"
 
 
-def _make_formula(const, terms, names, dep_entity_keys):
+def role_object(entity, role):
+    """the real Role of a group entity for a role argument (tuple of flattened indices)"""
+    if role == (0, 1):
+        return entity.roles[0]
+    return entity.flattened_roles[role[0]]
+
+
+def _make_formula(const, terms, names, dep_entity_keys, ents):
     import numpy
 
     def formula(population, period):
@@ -155,8 +190,14 @@ def _make_formula(const, terms, names, dep_entity_keys):
                 a = population(names[dep], p)
             elif via == "m":
                 a = population.sum(population.members(names[dep], p))
-            else:
+            elif via == "p":
                 a = getattr(population, dep_entity_keys[dep])(names[dep], p)
+            elif via[0] == "mr":
+                a = population.sum(population.members(names[dep], p), role=role_object(population.entity, via[1]))
+            elif via[0] == "nb":
+                a = population.nb_persons(role=role_object(population.entity, via[1]))
+            else:
+                a = population.has_role(role_object(ents[via[1]], via[2])) * 1.0
             if len(a) != len(total):           # numpy would broadcast a length-1 operand silently
                 raise ValueError("operands of different lengths")
             total = total + coef * a
@@ -169,15 +210,23 @@ def check_run(sysd, spec) -> None:
     """what the driver answers BAD to: group entities are >= 1 and distinct, every variable lives in a
     declared entity, every person has a group index below the group count"""
     n, groups, mem = spec
-    ks = [e for e, _, _ in groups]
+    ks = [g[0] for g in groups]
     if 0 in ks or len(set(ks)) != len(ks):
         raise Malformed("groups")
-    for e, count, mei in groups:
+    for e, count, mei, roles in groups:
         if len(mei) != n or any(g >= count for g in mei):
             raise Malformed("members")
-    for e, _, _, _ in sysd:
+        if roles is not None and (len(roles) != n or any(r >= 4 for r in roles)):
+            raise Malformed("roles")
+    for e, _, _, formula in sysd:
         if e != 0 and e not in ks:
             raise Malformed("entity")
+        for _, _, via, _ in (formula[1] if formula else []):
+            if isinstance(via, tuple):
+                if via[0] == "hr" and (via[1] not in ks or e != 0):
+                    raise Malformed("has_role")
+                if via[0] in ("mr", "nb") and e == 0:
+                    raise Malformed("role of a person variable")
 
 
 @functools.lru_cache(maxsize=256)
@@ -189,7 +238,7 @@ def make_system(sys_text: str, ks: tuple):
     sysd = parse_sys(sys_text)
     ents = {0: entities.Entity("person", "persons", "", "")}
     for k in ks:
-        ents[k] = entities.GroupEntity(f"g{k}", f"g{k}s", "", "", roles=[{"key": "member", "plural": "members"}])
+        ents[k] = entities.GroupEntity(f"g{k}", f"g{k}s", "", "", roles=[dict(d) for d in ROLE_DESCRIPTIONS])
     tbs = taxbenefitsystems.TaxBenefitSystem([ents[0]] + [ents[k] for k in ks])
     names = [f"v{i}" for i in range(len(sysd))]
     dep_keys = [entity_key(e) for e, _, _, _ in sysd]
@@ -199,7 +248,7 @@ def make_system(sys_text: str, ks: tuple):
         attrs = {"value_type": float, "entity": ents[e], "definition_period": periods.DateUnit(unit),
                  "default_value": float(dflt), "label": names[i]}
         if formula is not None:
-            attrs["formula"] = _make_formula(formula[0], formula[1], names, dep_keys)
+            attrs["formula"] = _make_formula(formula[0], formula[1], names, dep_keys, ents)
         tbs.add_variable(type(names[i], (variables.Variable,), attrs))
     return tbs, names
 
@@ -215,11 +264,15 @@ def build_simulation(tbs, spec, names):
     pops = tbs.instantiate_entities()
     pops["person"].count = n
     pops["person"].ids = [str(i) for i in range(n)]
-    for e, count, mei in groups:
+    for e, count, mei, roles in groups:
         gp = pops[entity_key(e)]
         gp.count = count
         gp.ids = [str(i) for i in range(count)]
         gp.members_entity_id = numpy.array(mei, dtype=numpy.int64)
+        if roles is not None:         # as SimulationBuilder.join_with_persons does: an object array of flattened roles
+            flattened = numpy.empty(len(gp.entity.flattened_roles), dtype=object)
+            flattened[:] = list(gp.entity.flattened_roles)
+            gp.members_role = flattened[numpy.array(roles, dtype=numpy.int64)]
     sim = simulations.Simulation(tbs, pops)
     if mem is not None:
         sim.memory_config = MemoryConfig(max_memory_occupation=0, priority_variables=[names[v] for v in mem])
@@ -314,6 +367,14 @@ def known_values(sim) -> dict:
     return out
 
 
+def role_reads(pop):
+    """(flattened role index of every member, nb_persons(role) for every standard role) through the public API"""
+    flat = list(pop.entity.flattened_roles)
+    roles = [flat.index(r) for r in pop.members_role]
+    counts = [[tok(x) for x in pop.nb_persons(role_object(pop.entity, r))] for r in STD_ROLES]
+    return roles, counts
+
+
 def observe(sim) -> str:
     """the canonical text `showObs` of Drv/Heap.lean prints for the model"""
     from openfisca_core import tracers
@@ -338,8 +399,12 @@ def observe(sim) -> str:
             hs.append(f"v{var_index(name)}:{b(h.population is pop)}{b(h.simulation is sim)}:" + "&".join(sorted(items)))
         members = getattr(pop, "members", None)
         mei = getattr(pop, "members_entity_id", None)
+        rtxt = ""
+        if members is not None:
+            roles, counts = role_reads(pop)
+            rtxt = ":r" + ".".join(map(str, roles)) + ":c" + "/".join(",".join(c) for c in counts)
         pops.append(f"e{pop_index(key)}:{b(pop.simulation is sim)}{b(members is None or members is sim.persons)}:n{pop.count}:"
-                    + ".".join(str(int(g)) for g in (mei if mei is not None else [])) + ":[" + " ".join(hs) + "]")
+                    + ".".join(str(int(g)) for g in (mei if mei is not None else [])) + rtxt + ":[" + " ".join(hs) + "]")
     return (f"t{b(sim.trace)}{b(full)}[" + " ".join(roots) + f"]s{len(tracer.stack)}i[" + " ".join(inval) + "]p"
             + b(sim.populations.get("person") is sim.persons) + "{" + " ".join(pops) + "}")
 
